@@ -57,11 +57,49 @@ Proof.
   - destruct bs; [destruct H|]. apply in_lay_rec in H as [H|H]; auto.
 Qed.
 
+Lemma in_lay_cstr s x : In x (lay_cstr s) -> x = CTag \/ x = CP POther.
+Proof.
+  unfold lay_cstr. intro H. apply in_app_or in H as [H|H]; [apply in_lay_rec in H as [H|H]; auto|].
+  destruct s; [|destruct H]. apply in_lay_str in H as [H|[H|H]]; auto.
+Qed.
+
+Lemma in_lay_new c x : (In x c -> x = CTag \/ x = CP POther) -> In x (lay_new c) -> x = CTag \/ x = CP POther.
+Proof.
+  intros Hc H. unfold lay_new in H. apply in_app_or in H as [H|H]; [apply in_lay_rec in H as [H|H]; auto|].
+  apply in_app_or in H as [H|H]; [apply in_lay_rec in H as [H|H]; auto|auto].
+Qed.
+
+Ltac lay_apps H :=
+  repeat (apply in_app_or in H as [H|H]; [apply in_lay_rec in H as [H|H]; auto|]).
+
+Lemma in_lay_tbody b x : In x (lay_tbody b) -> x = CTag \/ x = CP POther.
+Proof.
+  destruct b as [|bs|k v|s|k t|hid rc tl thr tli count|hid rc size|pid ts|k [hid|]|bs]; cbn [lay_tbody]; intro H.
+  - destruct H.
+  - apply in_lay_str in H as [H|[H|H]]; auto.
+  - apply in_lay_rec in H as [H|H]; auto.
+  - now apply in_lay_cstr in H.
+  - apply in_lay_rec in H as [H|H]; auto.
+  - revert H. apply in_lay_new. intro H. lay_apps H. apply in_lay_rec in H as [H|H]; auto.
+  - revert H. apply in_lay_new. intro H. lay_apps H. apply in_lay_rec in H as [H|H]; auto.
+  - revert H. apply in_lay_new. intro H. lay_apps H.
+    rewrite in_flat_map in H. destruct H as (t & _ & H). apply in_lay_rec in H as [H|H]; auto.
+  - lay_apps H. apply in_lay_rec in H as [H|H]; auto.
+  - destruct H.
+  - lay_apps H. apply in_lay_rec in H as [H|H]; auto.
+Qed.
+
+Lemma in_lay_tok t x : In x (lay_tok t) -> x = CTag \/ x = CP POther.
+Proof. unfold lay_tok. intro H. lay_apps H. now apply in_lay_tbody in H. Qed.
+
 Lemma in_lay_leaf l x : In x (lay_leaf l) -> x = CTag \/ x = CP POther.
 Proof.
-  destruct l as [k v|bs|bs|s t|id]; cbn [lay_leaf]; intro H;
-    try (apply in_lay_rec in H as [H|H]; auto).
-  apply in_lay_str in H as [H|[H|H]]; auto.
+  destruct l as [k v|bs|bs|s t|id|key toks]; cbn [lay_leaf]; intro H;
+    try (apply in_lay_rec in H as [H|H]; auto; fail).
+  - apply in_lay_str in H as [H|[H|H]]; auto.
+  - apply in_app_or in H as [H|H].
+    + destruct key as [k|]; cbn [lay_key] in H; [now apply in_lay_cstr in H|destruct H].
+    + rewrite in_flat_map in H. destruct H as (t & _ & H). now apply in_lay_tok in H.
 Qed.
 
 Lemma in_lay_leaves ls x : In x (flat_map lay_leaf ls) -> x = CTag \/ x = CP POther.
@@ -76,9 +114,38 @@ Proof.
   destruct bs; [unfold nlen; cbn; lia|]. rewrite nlen_lay_rec. fold (nlen (n :: bs)). change (N.of_nat 8) with 8. lia.
 Qed.
 
+Lemma nlen_lay_cstr s : nlen (lay_cstr s) = size_cstr s.
+Proof.
+  unfold lay_cstr, size_cstr. rewrite nlen_app, nlen_lay_rec. destruct s; [rewrite nlen_lay_str|]; change (nlen (@nil fclass)) with 0;
+    change (N.of_nat 1) with 1; lia.
+Qed.
+
+Lemma nlen_lay_ptrs (ts : list (option N)) : nlen (flat_map (fun _ => lay_ptr) ts) = 8 * nlen ts.
+Proof.
+  induction ts as [|t r IH]; cbn [flat_map]; [reflexivity|].
+  rewrite nlen_app, IH, nlen_cons. unfold lay_ptr. rewrite nlen_lay_rec. change (N.of_nat 4) with 4. lia.
+Qed.
+
+Lemma nlen_lay_tbody b : nlen (lay_tbody b) = size_body b.
+Proof.
+  destruct b as [|bs|k v|s|k t|hid rc tl thr tli count|hid rc size|pid ts|k [hid|]|bs]; cbn [lay_tbody size_body];
+    unfold lay_new, lay_ptr;
+    rewrite ?nlen_app, ?nlen_lay_str, ?nlen_lay_cstr, ?nlen_lay_ptrs, ?nlen_lay_rec; try reflexivity;
+    change (N.of_nat 4) with 4; change (N.of_nat 2) with 2; change (N.of_nat 1) with 1; try lia.
+  fold (nlen bs). lia.
+Qed.
+
+Lemma nlen_lay_toks ts : nlen (flat_map lay_tok ts) = size_toks ts.
+Proof.
+  induction ts as [|t r IH]; cbn [flat_map size_toks]; [reflexivity|].
+  rewrite nlen_app, IH. unfold lay_tok. rewrite !nlen_app, !nlen_lay_rec, nlen_lay_tbody.
+  change (N.of_nat 4) with 4. change (N.of_nat 1) with 1. lia.
+Qed.
+
 Lemma nlen_lay_leaf l : nlen (lay_leaf l) = size_leaf l.
 Proof.
-  destruct l as [k v|bs|bs|s t|id]; cbn [lay_leaf size_leaf]; rewrite ?nlen_lay_str, ?nlen_lay_rec; try reflexivity.
+  destruct l as [k v|bs|bs|s t|id|key toks]; cbn [lay_leaf size_leaf]; rewrite ?nlen_lay_str, ?nlen_lay_rec; try reflexivity.
+  rewrite nlen_app, nlen_lay_toks. destruct key as [k|]; cbn [lay_key size_key]; [now rewrite nlen_lay_cstr|reflexivity].
 Qed.
 
 Lemma nlen_lay_leaves ls : nlen (flat_map lay_leaf ls) = size_leaves ls.
